@@ -16,7 +16,7 @@ func VerifC09_finalize_step() {
 	_, brk, err := issuer.Evaluate(wire)
 	vAssume(err == nil)
 	clientKey := st.ClientKey()
-	anon := vBytes("anon", 8, 8)
+	anon := vBytesC("anon", 0, 2) // anonymous origin ids of any length, including the empty one
 	anonHex := hexOf(anon)
 
 	// the index this call will compute, obtained from a throw-away attester
@@ -39,7 +39,7 @@ func VerifC09_finalize_step() {
 		cache.m[hexOf(clientKey)] = state
 	}
 	// pre-state of this client
-	anon2Hex := hexOf(vBytes("anon2", 8, 8))
+	anon2Hex := hexOf(vBytesC("anon2", 0, 2))
 	vAssume(anon2Hex != anonHex)
 	binding := vSplit(vInt("index_binding", 0, 2), 0, 2) // 0 unbound, 1 bound to this anon id, 2 bound to another
 	switch binding {
